@@ -560,3 +560,18 @@ def mon_c06_cancel(case, verdict, chk):
             _mon_c03_engine(c2, verdict, chk)
         except Unsupported:
             pass
+
+
+def mon_c05_probe(case, verdict, chk):
+    """the temporary deployments made to read plugin schemas are closed on every path of a parse"""
+    if case.get("panic") or case.get("timeout"):
+        chk.violation("C05:probe-%s" % ("panic" if case.get("panic") else "timeout"), "preparing a workflow %s in probe failure mode %s" %
+                      ("panicked" if case.get("panic") else "did not return", case.get("mode")),
+                      {"kind": "impl-counterexample", "case": slim(case)})
+    elif case.get("probe_balance", 0) != 0:
+        chk.violation("C05:probe-deployment-left-open:" + str(case.get("mode")),
+                      "after Prepare returned (%s) %d probe deployment(s) are still open" % (case.get("mode"), case["probe_balance"]),
+                      {"kind": "impl-counterexample", "case": slim(case)})
+    elif case.get("goroutine_delta", 0) > 0:
+        chk.violation("C05:probe-goroutine-left:" + str(case.get("mode")), "%d goroutine(s) left after Prepare returned (%s)" %
+                      (case["goroutine_delta"], case.get("mode")), {"kind": "impl-counterexample", "case": slim(case)})
